@@ -70,6 +70,10 @@ class RecordingPush:
             self.fail(snapshot)
 
 
+class MonitorError(Exception):
+    """The checking code itself failed inside a trace callback (the shard runner reports it as inconclusive)."""
+
+
 class Rig:
     def __init__(self, custom=None, plugins=(), resource=None, host_dir=None, push=None, agent=None, parts=None):
         from deep.config import ConfigService
@@ -98,6 +102,7 @@ class Rig:
         self.events = []          # host-file events only (Ev)
         self.all_events = 0
         self.escapes = []         # (Ev, exc type name, traceback text)
+        self.monitor_errors = []  # failures of the checking code's own pre/post callbacks (any thread)
         self.pre = None           # callable(ev, frame, arg) before the agent sees the event
         self.post = None          # callable(ev, frame, arg) after it
         self.keep_events = True
@@ -145,7 +150,10 @@ class Rig:
             rig._cur.ev = ev
             try:
                 if rig.pre is not None and host:
-                    rig.pre(ev, frame, arg)
+                    try:
+                        rig.pre(ev, frame, arg)
+                    except BaseException:  # noqa - the monitor's own failure: reported by cleanup(), never silent
+                        rig.monitor_errors.append(traceback.format_exc()[-1500:])
                 if rig.freeze:
                     clock.freeze()
                 try:
@@ -159,7 +167,10 @@ class Rig:
                         clock.unfreeze()
                 ev.ret_none = r is None
                 if rig.post is not None and host:
-                    rig.post(ev, frame, arg)
+                    try:
+                        rig.post(ev, frame, arg)
+                    except BaseException:  # noqa
+                        rig.monitor_errors.append(traceback.format_exc()[-1500:])
             finally:
                 rig._cur.ev = prev
             return r
@@ -212,6 +223,9 @@ class Rig:
                 store.clear()
         except BaseException:  # noqa
             pass
+        if self.monitor_errors:
+            errs, self.monitor_errors = self.monitor_errors, []
+            raise MonitorError('%d monitor callback failure(s), first: %s' % (len(errs), errs[0]))
 
 
 def _call(fn, args):
